@@ -86,7 +86,7 @@ pub fn main() -> i32 {
     let mut pres = [0i32; 2];
     let mut npre = 0;
     let mut envnone = false;
-    let mut ops: [&[u8]; 4] = [b"", b"", b"", b""];
+    let mut ops: [&[u8]; 8] = [b""; 8];
     let mut nops = 0;
     let mut feed: Option<&[u8]> = None;
     let mut payload_n = 0usize;
@@ -117,7 +117,7 @@ pub fn main() -> i32 {
             }
             b"wait" => {
                 for o in v.split(|&c| c == b',') {
-                    if !o.is_empty() && nops < 4 {
+                    if !o.is_empty() && nops < 8 {
                         ops[nops] = o;
                         nops += 1;
                     }
